@@ -781,8 +781,68 @@ def raw_reaching_def_stmt(name, stmt):
                 if isinstance(s, ast.Assign) and len(s.targets) == 1 and isinstance(s.targets[0], ast.Name) and s.targets[0].id == name:
                     return s
                 if name in assigned_names(s):
-                    return None
+                    return _last_def_in_with(name, s)
             if isinstance(p, (ast.For, ast.AsyncFor)) and name in {x.id for x in ast.walk(p.target) if isinstance(x, ast.Name)}:
+                return None
+            if isinstance(p, (ast.For, ast.AsyncFor, ast.While)) and f in ("body", "orelse") and name in assigned_names(p):
+                return None   # (re)bound somewhere in the loop: the value may come from an earlier iteration
+            if isinstance(p, ast.ExceptHandler) or (isinstance(p, ast.Try) and f in ("finalbody", "orelse")):
+                tr = p if isinstance(p, ast.Try) else parent(p)
+                if tr is not None and any(name in assigned_names(x) for x in tr.body):
+                    return None   # the try body may or may not have rebound it
+        cur = parent(cur)
+    return None
+
+
+def _last_def_in_with(name, s):
+    """a `with` body always runs: the last straight-line definition inside it reaches the statements after it"""
+    if not isinstance(s, ast.With) or any(name in assigned_names(i.optional_vars) for i in s.items if i.optional_vars is not None):
+        return None
+    for x in reversed(s.body):
+        if isinstance(x, ast.Assign) and len(x.targets) == 1 and isinstance(x.targets[0], ast.Name) and x.targets[0].id == name:
+            return x
+        if name in assigned_names(x):
+            return _last_def_in_with(name, x)
+    return None
+
+
+def unpack_source(name, stmt):
+    """``name`` bound by ``a, name, ... = f(...)``: returns (call, position) or None"""
+    ds = reaching_binding_stmt(name, stmt)
+    if ds is None or not isinstance(ds.value, ast.Call) or not isinstance(ds.targets[0], ast.Tuple):
+        return None
+    pos = [i for i, e in enumerate(ds.targets[0].elts) if isinstance(e, ast.Name) and e.id == name]
+    return (ds.value, pos[0]) if len(pos) == 1 else None
+
+
+def rename_bound(e):
+    """clone with the variables bound by comprehensions renamed canonically (so that [f(x) for x in L] == [f(y) for y in L])"""
+    e = clone(e)
+    comps = [n for n in ast.walk(e) if isinstance(n, (ast.ListComp, ast.SetComp, ast.GeneratorExp, ast.DictComp))]
+    for k, c in enumerate(reversed(comps)):
+        bound = []
+        for g in c.generators:
+            bound += [x.id for x in ast.walk(g.target) if isinstance(x, ast.Name)]
+        ren = {b: "$b%d_%d" % (len(comps) - k, j) for j, b in enumerate(bound) if not b.startswith("$b")}
+        for n in ast.walk(c):
+            if isinstance(n, ast.Name) and n.id in ren:
+                n.id = ren[n.id]
+    return e
+
+
+def reaching_binding_stmt(name, stmt):
+    """like raw_reaching_def_stmt but also returns a tuple-unpacking assignment that binds ``name``"""
+    cur = stmt
+    while cur is not None and not isinstance(cur, FUNC_TYPES):
+        blk = block_of(cur)
+        if blk:
+            p, f, lst, i = blk
+            for s in reversed(lst[:i]):
+                if name in assigned_names(s):
+                    return s if isinstance(s, ast.Assign) and len(s.targets) == 1 else None
+            if isinstance(p, (ast.For, ast.AsyncFor, ast.While)) and name in assigned_names(p):
+                return None
+            if isinstance(p, ast.ExceptHandler) or (isinstance(p, ast.Try) and f in ("finalbody", "orelse")):
                 return None
         cur = parent(cur)
     return None
@@ -793,7 +853,7 @@ def raw_reaching_def(name, stmt):
     return s.value if s is not None else None
 
 
-def inline_temporaries(expr, stmt, fn, depth=4, only=None):
+def inline_temporaries(expr, stmt, fn, depth=4, only=None, exclude=()):
     """Substitute local single-reaching-definition temporaries (not parameters) into expr, position-aware
     (names inside a substituted definition are resolved at that definition), a few levels deep;
     restricted to the names in ``only`` when given."""
@@ -805,7 +865,7 @@ def inline_temporaries(expr, stmt, fn, depth=4, only=None):
 
         class T(ast.NodeTransformer):
             def visit_Name(self, n):
-                if isinstance(n.ctx, ast.Load) and n.id not in params and (only is None or n.id in only):
+                if isinstance(n.ctx, ast.Load) and n.id not in params and n.id not in exclude and (only is None or n.id in only):
                     ds = raw_reaching_def_stmt(n.id, at)
                     if ds is not None:
                         if isinstance(ds.value, (ast.List, ast.Dict, ast.Set)) and not getattr(ds.value, "elts", getattr(ds.value, "keys", None)):
